@@ -103,12 +103,13 @@ def generate_index(args:argparse.Namespace):
     logger.info('Genome annotation GTF saved to disk.')
 
     # canoincal peptide pool
-    canonical_peptides = proteome.create_unique_peptide_pool(
-        anno=anno, rule=rule, exception=exception, miscleavage=miscleavage,
-        min_mw=min_mw, min_length = min_length, max_length = max_length
-    )
     cleavage_params = params.CleavageParams(
         enzyme=rule, exception=exception, miscleavage=miscleavage,
+        min_mw=min_mw, min_length = min_length, max_length = max_length
+    )
+    canonical_peptides = proteome.create_unique_peptide_pool(
+        anno=anno, rule=rule, exception=cleavage_params.exception,
+        miscleavage=miscleavage,
         min_mw=min_mw, min_length = min_length, max_length = max_length
     )
     logger.info('canonical peptide pool generated.')
